@@ -152,6 +152,8 @@ def build_track(tspec):
 # ------------------------------------------------------------------------------------- model
 def drifts(entries, meter):
     """the float sum of the entry lengths falls short of the bar length although the exact sum equals it"""
+    if not meter[1]:
+        return False    # a bar without a meter has no length to fall short of
     L = Fraction(*meter)
     fsum = 0.0          # plain left-to-right float accumulation (builtin sum() compensates since 3.12)
     exact = Fraction(0)
@@ -173,7 +175,8 @@ def model_parallel(tracks, bpm, replay_last_in_drift_bars=False):
     pos0 = Fraction(0)
     nb = len(tracks[0]["bars"])
     for k in range(nb):
-        L = Fraction(*tracks[0]["bars"][k]["meter"])
+        m0 = tracks[0]["bars"][k]["meter"]
+        L = Fraction(m0[0], m0[1]) if m0[1] else Fraction(0)       # (a bar without a meter lasts as long as what it holds)
         longest = L
         for ti, t in enumerate(tracks):
             p = pos0
@@ -372,6 +375,9 @@ def run(shard, ctx):
         bpm_p = rng.choice([0.0, 0.0, 0.15])
         meter = rng.choice([(4, 4), (3, 4), (6, 8), (2, 4), (5, 4)])
         L = Fraction(*meter)
+        if rng.random() < 0.12:
+            # bars without a meter: (0, 0) holds whatever is put into it (every track's bar holds the same total here)
+            meter, L = (0, 0), Fraction(rng.randint(1, 9), rng.choice([4, 8]))
         shared = [random_rhythm(rng, L, pool) for _ in range(nb)]
         tracks = []
         for ti in range(ntr):
@@ -389,7 +395,7 @@ def run(shard, ctx):
                 elif r_ < 0.6:
                     ins = {"kind": "plain"}
             tracks.append({"name": "t%d" % ti, "instrument": ins, "bars": bars})
-        if ntr >= 2 and kind in ("bars", "tracks", "composition") and rng.random() < 0.2:
+        if ntr >= 2 and kind in ("bars", "tracks", "composition") and rng.random() < 0.2 and meter != (0, 0):
             # one track's bar is only partly filled (its last entry is left out); the others keep sounding to the bar line
             ti = rng.randrange(ntr)
             k = rng.randrange(nb)
